@@ -1,15 +1,13 @@
-(* Props/C04Reached.v - property C04: the backlink getters after every history of plain updates from every import of distinct plain notes, no premise left (Reachable.v)
+(* Props/C04Reached.v - property C04: the backlink getters after EVERY history of updates from every import of notes with distinct keys, no premise on the blocks left (Reachable.v)
    Only statements, each closed by an `exact`, pinned by a `Check`, followed by `Print Assumptions`. *)
 From Coq Require Import ZArith Permutation List.
 From IweV Require Import Str Text Ast RelPath Arena ArenaWF ArenaFacts BuilderFacts Project Library LibraryFacts Index IndexFacts IndexHistory Paths PathsFacts PathsComplete Squash SquashFacts Check_Norm ForestFacts BuilderWF HistoryWF HistoryClosed Reachable.
 Local Open Scope string_scope.
 Local Open Scope list_scope.
 
-Theorem C04_index_no_history_plain :
+Theorem C04_index_no_history_reached :
   forall (notes : list (string * option string * list dblock)) (ops : list op),
-         plain_notes notes ->
          distinct_keys notes ->
-         plain_ops ops ->
          exists s0 s : gstate,
            import_state_v true notes = Ok s0 /\
            run_updates true s0 ops = Ok s /\
@@ -17,12 +15,10 @@ Theorem C04_index_no_history_plain :
            (forall k : string,
             block_refs_to s k = Ok (exact_refs (arena_of s) k) /\
             inline_refs_to s k = Ok (exact_inline (arena_of s) k)).
-Proof. exact Reachable.C04_index_no_history_plain. Qed.
-Check C04_index_no_history_plain :
+Proof. exact Reachable.C04_index_no_history_reached. Qed.
+Check C04_index_no_history_reached :
   forall (notes : list (string * option string * list dblock)) (ops : list op),
-         plain_notes notes ->
          distinct_keys notes ->
-         plain_ops ops ->
          exists s0 s : gstate,
            import_state_v true notes = Ok s0 /\
            run_updates true s0 ops = Ok s /\
@@ -30,70 +26,57 @@ Check C04_index_no_history_plain :
            (forall k : string,
             block_refs_to s k = Ok (exact_refs (arena_of s) k) /\
             inline_refs_to s k = Ok (exact_inline (arena_of s) k)).
-Print Assumptions C04_index_no_history_plain.
+Print Assumptions C04_index_no_history_reached.
 
-Theorem C04_index_history_independent_plain :
+Theorem C04_index_history_independent_reached :
   forall (notes1 : list (string * option string * list dblock)) (ops1 : list op)
            (notes2 : list (string * option string * list dblock)) (ops2 : list op) 
            (s1 s2 : gstate),
-         plain_notes notes1 ->
          distinct_keys notes1 ->
-         plain_ops ops1 ->
          reached notes1 ops1 s1 ->
-         plain_notes notes2 ->
          distinct_keys notes2 ->
-         plain_ops ops2 ->
          reached notes2 ops2 s2 ->
          arena_of s1 = arena_of s2 ->
          forall k : string,
          block_refs_to s1 k = block_refs_to s2 k /\ inline_refs_to s1 k = inline_refs_to s2 k.
-Proof. exact Reachable.C04_index_history_independent_plain. Qed.
-Check C04_index_history_independent_plain :
+Proof. exact Reachable.C04_index_history_independent_reached. Qed.
+Check C04_index_history_independent_reached :
   forall (notes1 : list (string * option string * list dblock)) (ops1 : list op)
            (notes2 : list (string * option string * list dblock)) (ops2 : list op) 
            (s1 s2 : gstate),
-         plain_notes notes1 ->
          distinct_keys notes1 ->
-         plain_ops ops1 ->
          reached notes1 ops1 s1 ->
-         plain_notes notes2 ->
          distinct_keys notes2 ->
-         plain_ops ops2 ->
          reached notes2 ops2 s2 ->
          arena_of s1 = arena_of s2 ->
          forall k : string,
          block_refs_to s1 k = block_refs_to s2 k /\ inline_refs_to s1 k = inline_refs_to s2 k.
-Print Assumptions C04_index_history_independent_plain.
+Print Assumptions C04_index_history_independent_reached.
 
 Theorem C04_reachable_total :
   forall (notes : list (string * option string * list dblock)) (ops : list op),
-         plain_notes notes ->
          distinct_keys notes ->
-         plain_ops ops ->
          exists s : gstate,
            reached notes ops s /\ Inv s /\ fold_left hist_step ops (import notes) = Ok (gs_graph s).
 Proof. exact Reachable.reachable_total. Qed.
 Check C04_reachable_total :
   forall (notes : list (string * option string * list dblock)) (ops : list op),
-         plain_notes notes ->
          distinct_keys notes ->
-         plain_ops ops ->
          exists s : gstate,
            reached notes ops s /\ Inv s /\ fold_left hist_step ops (import notes) = Ok (gs_graph s).
 Print Assumptions C04_reachable_total.
 
-Theorem C04_plain_needed :
+Theorem C04_former_orphan_exact :
   exists (ops : list op) (s0 s : gstate) (k : string),
            forallb (fun o : op => forallb plain_items (snd o)) ops = false /\
            import_state_v true [] = Ok s0 /\
            run_updates true s0 ops = Ok s /\
-           block_refs_to s k = Ok [] /\ exact_refs (arena_of s) k = [3].
-Proof. exact Reachable.C04_plain_needed. Qed.
-Check C04_plain_needed :
+           block_refs_to s k = Ok [5] /\ exact_refs (arena_of s) k = [5].
+Proof. exact Reachable.C04_former_orphan_exact. Qed.
+Check C04_former_orphan_exact :
   exists (ops : list op) (s0 s : gstate) (k : string),
            forallb (fun o : op => forallb plain_items (snd o)) ops = false /\
            import_state_v true [] = Ok s0 /\
            run_updates true s0 ops = Ok s /\
-           block_refs_to s k = Ok [] /\ exact_refs (arena_of s) k = [3].
-Print Assumptions C04_plain_needed.
-
+           block_refs_to s k = Ok [5] /\ exact_refs (arena_of s) k = [5].
+Print Assumptions C04_former_orphan_exact.
